@@ -23,12 +23,13 @@ import numpy as np
 from hypothesis import strategies as st
 
 from vf import gen_cons as gc
+from vf import mj
 from vf.oracle import cons
 from vf.runner import Violation
 
 EPS = np.finfo(float).eps
 # Tolerance constants (HARNESS rule 2): calibrated on the unchanged tree, seeds 1-5 x 1500 cases; worst observed ratios
-# are given in eps units of the rounding scale `noise` = |M||a-a0| + |J|'(|f| + D(|J||a|+|aref|)).
+# are given in eps units of the rounding scale `noise` = |M|(|a|+|a0|) + |J|'(|f| + D(|J||a|+|aref|)).
 K_GRAD = 2e4      # oracle gradient at a self-declared optimum: worst observed ~2e2 eps
 K_FORCE = 1e4     # efc_force vs oracle force law: worst observed ~1e2 eps of (|f| + D(|J||a|+|aref|))
 K_DATA = 1e3      # problem data (J, aref, R, a0) between storage / island variants: worst observed 0 (bit-identical) .. 4 eps
@@ -61,6 +62,46 @@ def run(lib, m, d0, solver, island, jac, warm, tol, iters):
   return d
 
 
+FP_COMPUTEY = 'C10/computeY-simple-dof'
+FP_STATIC = 'C10/static-static-pair-dense'
+
+PROBE_COMPUTEY = [
+    ('free joint with frictionloss, PGS, sparse',
+     '<mujoco><option solver="PGS" jacobian="sparse"/><worldbody><body><joint type="free" frictionloss="0.01"/>'
+     '<geom type="sphere" size=".1"/></body></worldbody></mujoco>'),
+    ('two slide joints with frictionloss on a point-symmetric body, PGS, sparse',
+     '<mujoco><option solver="PGS" jacobian="sparse"/><worldbody><body><joint type="slide" axis="1 0 0" frictionloss="0.01"/>'
+     '<joint type="slide" axis="0 1 0" frictionloss="0.01"/><geom type="sphere" size=".1"/></body></worldbody></mujoco>'),
+    ('free joint with frictionloss, Newton + noslip, sparse',
+     '<mujoco><option solver="Newton" jacobian="sparse" noslip_iterations="3"/><worldbody><geom type="plane" size="1 1 .1"/>'
+     '<body pos="0 0 .05"><joint type="free" frictionloss=".1"/><geom type="sphere" size=".1"/></body></worldbody></mujoco>'),
+]
+PROBE_STATIC = [
+    ('explicit pair floor / geom of a jointless body, default options (dense Jacobian, islands)',
+     '<mujoco><worldbody><geom name="floor" type="plane" size="3 3 .1"/><body pos="0 0 1"><joint type="free"/>'
+     '<geom type="sphere" size="0.03"/></body><body><geom name="g2" type="sphere" size="0.03"/></body></worldbody>'
+     '<contact><pair geom1="floor" geom2="g2"/></contact></mujoco>'),
+]
+
+
+def probes(ck, lib):
+  """One dedicated probe per known finding: every variant of the documented option space must load and run
+  (doc/computation: 'Each solver algorithm can be used with both pyramidal and elliptic friction cones, and both dense
+  and sparse representations of the constraint Jacobian')."""
+  for fp, bucket, lst in ((FP_COMPUTEY, 'sparse-dual-simple-dof', PROBE_COMPUTEY), (FP_STATIC, 'static-static-pair', PROBE_STATIC)):
+    for what, xml in lst:
+      try:
+        m = lib.model_from_xml(xml)
+        d = lib.make_data(m)
+        lib.mj_forward(m, d)
+        lib.mj_step(m, d)
+        ck.label('probe-ok:' + bucket)
+      except mj.MjError as e:
+        ck.violation('valid model (%s) cannot be compiled / stepped: %s' % (what, e), dict(xml=xml), bucket=bucket,
+                     fingerprint=fp)
+        break
+
+
 def main(ck):
   lib = ck.lib('rel')
   E = lib.enums
@@ -80,6 +121,7 @@ def main(ck):
   stats = dict(max_grad_eps=0.0, max_force_eps=0.0, max_data_eps=0.0, max_pgs_kkt=0.0, max_cost_eps=0.0,
                max_agree_ratio=0.0, max_rep_ratio=0.0)
   ITER = 100 if ck.quick else 200
+  probes(ck, lib)
 
   def test(case):
     r = gc.prepare(lib, case, ck)
@@ -90,6 +132,7 @@ def main(ck):
       ck.discard('nv>40')
       return
     dflags0 = int(m.opt.disableflags)
+    redM = gc.reduced_M(m)
     rng = np.random.RandomState(case.seed)
     # ---- variants
     variants = []
@@ -110,6 +153,10 @@ def main(ck):
     a_ws = np.array(d0.qacc_warmstart, dtype=np.float64)
     labels = set()
     for (solver, island, jac, warm, tol, iters) in variants:
+      if solver == PGS and jac == E.mjJAC_SPARSE and redM:
+        # input class of known finding C10/computeY-simple-dof (probed separately): excluded by construction, counted
+        labels.add('excluded:sparse-pgs-on-reduced-M')
+        jac = E.mjJAC_DENSE
       d = run(lib, m, d0, solver, island, jac, warm, tol, iters)
       if lib.warnings():
         ck.discard('engine-warning')
@@ -128,37 +175,51 @@ def main(ck):
         if errs:
           raise Violation('problem layout: %s' % errs, bucket='problem-data')
         Sc = trace_scale(P, m)
-        aJ = np.abs(P.J)
         lam_min = float(np.linalg.eigvalsh(P.M)[0])
         nisland = int(d.nisland)
       else:
         # all variants must see the same documented problem
-        if Pv.nefc != P.nefc or not np.array_equal(Pv.type, P.type) or not np.array_equal(Pv.id, P.id):
-          raise Violation('%s: constraint list differs from the first variant (nefc %d vs %d)' % (tag, Pv.nefc, P.nefc),
-                          bucket='problem-data')
-        for nm, x, y, sc in (('efc_J', Pv.J, P.J, np.abs(P.J).max(initial=0)), ('efc_aref', Pv.aref, P.aref, None),
-                             ('efc_R', Pv.R, P.R, None), ('qacc_smooth', Pv.a0, P.a0, np.abs(P.a0).max(initial=0)),
-                             ('M', Pv.M, P.M, np.abs(P.M).max())):
+        same = Pv.nefc == P.nefc and np.array_equal(Pv.type, P.type) and np.array_equal(Pv.id, P.id)
+        A, B = Pv, P
+        if not same:
+          # storage variants may keep or drop rows whose Jacobian is identically zero (they do not change the problem);
+          # everything else must coincide
+          kv, kp = np.any(Pv.J != 0, axis=1), np.any(P.J != 0, axis=1)
+          if not (np.array_equal(Pv.type[kv], P.type[kp]) and np.array_equal(Pv.id[kv], P.id[kp])):
+            raise Violation('%s: constraint list differs from the first variant beyond zero-Jacobian rows (nefc %d vs %d)'
+                            % (tag, Pv.nefc, P.nefc), bucket='problem-data')
+          labels.add('zero-jacobian-rows-differ-between-variants')
+
+          class _V:
+            pass
+          A, B = _V(), _V()
+          for o, src, k in ((A, Pv, kv), (B, P, kp)):
+            o.J, o.aref, o.R, o.a0, o.M = src.J[k], src.aref[k], src.R[k], src.a0, src.M
+        for nm, x, y, sc in (('efc_J', A.J, B.J, np.abs(B.J).max(initial=0)), ('efc_aref', A.aref, B.aref, None),
+                             ('efc_R', A.R, B.R, None), ('qacc_smooth', A.a0, B.a0, np.abs(B.a0).max(initial=0)),
+                             ('M', A.M, B.M, np.abs(B.M).max())):
           scale = (np.abs(x) + np.abs(y)) if sc is None else sc
           err = np.abs(x - y)
           ratio = float(np.max(err / (EPS * (scale + 1e-300)), initial=0))
           stats['max_data_eps'] = max(stats['max_data_eps'], ratio)
           if ratio > K_DATA:
             raise Violation('%s: %s differs from the first variant by %.3g eps' % (tag, nm, ratio), bucket='problem-data')
+      Q = Pv
+      aJ = np.abs(Q.J)
       a = np.array(d.qacc, dtype=np.float64)
-      fE = np.array(d.efc_force, dtype=np.float64)[:P.nefc]
+      fE = np.array(d.efc_force, dtype=np.float64)[:Q.nefc]
       if not (np.all(np.isfinite(a)) and np.all(np.isfinite(fE))):
         raise Violation('%s: non-finite qacc/efc_force' % tag, bucket='nonfinite')
-      y = P.jar(a)
-      g, fO = P.grad(a, with_force=True)
-      noise = P.noise(a, fO)
+      y = Q.jar(a)
+      g, fO = Q.grad(a, with_force=True)
+      noise = Q.noise(a, fO)
       nn = float(np.linalg.norm(noise)) + 1e-300
       gn = float(np.linalg.norm(g))
       # block-wise rounding scale of a force: |f| + D_max(block) (|J||a| + |aref|)
-      Dm = P.D.copy()
-      for (i, dim, mu) in P.ell:
-        Dm[i:i + dim] = P.D[i:i + dim].max() * max(1.0, float((1 / mu).max()), float(mu.max()))
-      fscale = np.abs(fO) + np.abs(fE) + Dm * (aJ @ np.abs(a) + np.abs(P.aref))
+      Dm = Q.D.copy()
+      for (i, dim, mu) in Q.ell:
+        Dm[i:i + dim] = Q.D[i:i + dim].max() * max(1.0, float((1 / mu).max()), float(mu.max()))
+      fscale = np.abs(fO) + np.abs(fE) + Dm * (aJ @ np.abs(a) + np.abs(Q.aref))
       st_ = cons.solver_stats(lib, d)
       niter = np.array(d.solver_niter, dtype=np.int64)
       ni_used = 1 if not island or int(d.nisland) == 0 else int(d.nisland)
@@ -168,11 +229,11 @@ def main(ck):
         stats['max_force_eps'] = max(stats['max_force_eps'], fr)
         if fr > K_FORCE:
           raise Violation('%s: efc_force differs from the documented force law -grad s(J qacc - aref): |df|=%.3g (%.3g eps '
-                          'of the rounding scale), nefc=%d' % (tag, np.linalg.norm(fE - fO), fr, P.nefc), bucket='force-law')
+                          'of the rounding scale), nefc=%d' % (tag, np.linalg.norm(fE - fO), fr, Q.nefc), bucket='force-law')
       else:
-        lhs = P.M @ (a - P.a0)
-        rhs = P.J.T @ fE
-        sc = np.abs(P.M) @ np.abs(a - P.a0) + aJ.T @ np.abs(fE) + np.abs(P.M) @ np.abs(P.a0)
+        lhs = Q.M @ (a - Q.a0)
+        rhs = Q.J.T @ fE
+        sc = np.abs(Q.M) @ np.abs(a - Q.a0) + aJ.T @ np.abs(fE) + np.abs(Q.M) @ np.abs(Q.a0)
         fr = float(np.linalg.norm(lhs - rhs) / (EPS * np.linalg.norm(sc) + 1e-300))
         stats['max_force_eps'] = max(stats['max_force_eps'], fr)
         if fr > K_FORCE * 10:
@@ -210,16 +271,16 @@ def main(ck):
             if gn > bound:
               raise Violation('%s: oracle gradient norm %.6g at the returned qacc exceeds what the solver claims (%s: reported '
                               'scaled gradient %.3g -> bound %.3g; rounding scale %.3g; niter=%s of %d, tolerance=%g, '
-                              'nefc=%d, nv=%d)' % (tag, gn, claim, rep, bound, nn, list(niter[:ni_used]), iters, tol, P.nefc,
-                                                    P.nv), bucket=names[solver] + '-optimality')
+                              'nefc=%d, nv=%d)' % (tag, gn, claim, rep, bound, nn, list(niter[:ni_used]), iters, tol, Q.nefc,
+                                                    Q.nv), bucket=names[solver] + '-optimality')
           labels.add('%s:%s' % (names[solver], claim or 'noclaim'))
         # ---------------- monotone
-        c_fin = P.cost(a)
-        c_s = P.cost(P.a0)
-        c_start = min(c_s, P.cost(a_ws)) if warm else c_s
-        da0 = a - P.a0
-        cscale = 0.5 * np.abs(da0) @ (np.abs(P.M) @ np.abs(da0)) + np.sum(np.abs(fO * y)) + 0.5 * np.sum(P.R * fO * fO) + \
-            abs(c_start) + float(np.sum(P.D * (aJ @ np.abs(P.a0) + np.abs(P.aref)) ** 2)) * EPS
+        c_fin = Q.cost(a)
+        c_s = Q.cost(Q.a0)
+        c_start = min(c_s, Q.cost(a_ws)) if warm else c_s
+        da0 = a - Q.a0
+        cscale = 0.5 * np.abs(da0) @ (np.abs(Q.M) @ np.abs(da0)) + np.sum(np.abs(fO * y)) + 0.5 * np.sum(Q.R * fO * fO) + \
+            abs(c_start) + float(np.sum(Q.D * (aJ @ np.abs(Q.a0) + np.abs(Q.aref)) ** 2)) * EPS
         exc = (c_fin - c_start) / (EPS * cscale + 1e-300)
         stats['max_cost_eps'] = max(stats['max_cost_eps'], float(exc))
         if exc > K_COST:
@@ -229,8 +290,17 @@ def main(ck):
         # PGS stopped on tolerance 1e-14 before its 2000 iterations: loose fixed-point residual
         stopped = all(int(niter[k]) < iters for k in range(min(ni_used, E.mjNISLAND))) and ni_used <= E.mjNISLAND
         if stopped:
-          kkt = float(np.linalg.norm(fE - fO) / (np.linalg.norm(fE) + np.linalg.norm(fO) + EPS * np.linalg.norm(fscale) * 1e3
-                                                  + 1e-300))
+          # Documented exception (doc "PGS": ray from the tip of the cone through the current solution, then the
+          # ellipsoid slice at the current normal force): a block sitting exactly at the tip with a normal row that asks
+          # for no force (y_n >= 0) cannot be moved by either step although the conic optimum may be non-zero.  Such
+          # blocks are masked (counted) and the fixed point is required of all other rows.
+          mask = np.ones(Q.nefc, dtype=bool)
+          for (i, dim, mu) in Q.ell:
+            if not np.any(fE[i:i + dim]) and y[i] >= 0 and np.any(fO[i:i + dim]):
+              mask[i:i + dim] = False
+              labels.add('pgs:elliptic-tip-fixed-point')
+          kkt = float(np.linalg.norm((fE - fO)[mask]) / (np.linalg.norm(fE[mask]) + np.linalg.norm(fO[mask]) +
+                                                           EPS * np.linalg.norm(fscale[mask]) * 1e3 + 1e-300))
           stats['max_pgs_kkt'] = max(stats['max_pgs_kkt'], kkt)
           labels.add('pgs:stopped')
           claim = 'pgs-stopped'
@@ -240,15 +310,16 @@ def main(ck):
                             bucket='pgs-kkt')
         else:
           labels.add('pgs:unconverged')
-      sols.append((tag, a, P.delta(g), claim, gn / (EPS * nn)))
+      sols.append((tag, a, P.delta(P.grad(a)), claim, nn))
     # ---------------- reference minimiser and agreement
     a_ref, info = cons.minimize(P, maxiter=100)
     g_ref = P.grad(a_ref)
     d_ref = P.delta(g_ref)
     ref_conv = info['rel'] <= 1e-13
     labels.add('ref:converged' if ref_conv else 'ref:unconverged')
-    slack = K_GRAD * EPS * float(np.linalg.norm(P.noise(a_ref, P.force(P.jar(a_ref))))) / np.sqrt(lam_min)
-    for (tag, a, dl, claim, geps) in sols:
+    nn_ref = float(np.linalg.norm(P.noise(a_ref, P.force(P.jar(a_ref)))))
+    for (tag, a, dl, claim, nn_a) in sols:
+      slack = K_GRAD * EPS * (nn_ref + nn_a) / np.sqrt(lam_min)
       dist = P.mnorm(a - a_ref)
       ratio = dist / (dl + d_ref + slack + 1e-300)
       stats['max_agree_ratio'] = max(stats['max_agree_ratio'], ratio)
@@ -269,7 +340,7 @@ def main(ck):
     labs = sorted(labels) + comp + ['zone:' + z for z in sorted(zones)] + ['cone:' + case.cone]
     if nisland >= 2:
       labs.append('nisland>=2')
-    labs += [l for l in case.gm.labels() if l.startswith(('eq:', 'tendon:', 'pair:', 'default:'))]
+    labs += [l for l in case.labels if l.startswith(('eq:', 'tendon:', 'pair:', 'default:'))]
     m.opt.disableflags = dflags0
     ck.case(nontrivial=nt, key=case.key(),
             sample=case.sample(nefc=P.nefc, nv=P.nv, ne=P.ne, nf=P.nf, nl=P.nl, ncon=int(d.ncon), nisland=nisland,
